@@ -253,6 +253,12 @@ def run(spec, ctx):
                 for ue in (True, False):
                     check_sequence(ctx, toks, ue)
                     n += 1
+        # integer tokens at and just inside the index limits, both signs (digit counts 15, 16 and 16 + sign)
+        for t in ("9007199254740991", "-9007199254740991", "-1000000000000000", "1000000000000000", "-999999999999999", "999999999999999", "9007199254740990", "-9007199254740990", "-1234567890123456"):
+            for toks in ((t,), ("obj", t), (t, "x"), ("a", t, t)):
+                for ue in (True, False):
+                    check_sequence(ctx, toks, ue)
+                    n += 1
         # refused texts (index out of range, bad escape, no leading slash, ...) sprinkled among long runs of DISTINCT
         # valid pointers: whatever a refusal leaves behind must not surface hundreds of parses later
         refused = ["/items/9007199254740992", "/-9007199254740992/x", "/a\\", "no-slash", "/\\ud800x", "/" + "9" * 40, "/a/\\u12", " /a"]
